@@ -1663,6 +1663,33 @@ pub fn run(args: &Args, rep: &mut Report) {
         run_replay(rep, path);
         return;
     }
+    if let Some(path) = args.get("dump-table") {
+        // the systematic probe table as JSON lines (frame bytes + pre-history + allowed outcomes),
+        // for re-use by the L2 frame-injection leg
+        let mut out = String::new();
+        for f in families() {
+            for e in f.epochs {
+                for h in HISTS {
+                    if h.k < f.min_k || h.streams < f.min_streams {
+                        continue;
+                    }
+                    let mut vals = (f.values)(h);
+                    vals.extend(RAMP.iter().filter_map(|d| (f.ramp)(h, *d)));
+                    vals.sort_unstable();
+                    vals.dedup();
+                    for v in vals {
+                        if let Some(p) = (f.make)(h, e, v) {
+                            out.push_str(&p.to_json().to_string());
+                            out.push('\n');
+                            rep.evaluations += 1;
+                        }
+                    }
+                }
+            }
+        }
+        std::fs::write(path, out).expect("write table");
+        return;
+    }
     let thorough = args.get("tier") == Some("thorough");
     let shard = args.u64("shard", 0);
     let shards = args.u64("shards", 1).max(1);
